@@ -146,7 +146,8 @@ LINTERS = {
                           invalid=[("max_small_integer", 0), ("max_small_integer", -5)], lang_knob="allowed_numbers"),
     "dry": dict(cmd="dry", sections=["dry"], files=_dry_files, base={"enabled": True},
                 knobs=[("min_duplicate_lines", [2, 3, 4, 5, 6, 7]), ("min_occurrences", [2, 3, 4, 5])], cli={"min_duplicate_lines": "--min-lines"},
-                invalid=[("min_duplicate_lines", 0), ("min_occurrences", 0), ("storage_mode", "cloud")], lang_knob=None),
+                invalid=[("min_duplicate_lines", 0), ("min_occurrences", 0), ("storage_mode", "cloud")], lang_knob="min_occurrences",
+                lang_knobs_extra=["min_duplicate_lines"]),  # documented per-language key without an implementation (known finding)
     "print-statements": dict(cmd="improper-logging", sections=["print-statements", "improper-logging"], files=_script_files,
                              knobs=[("allow_in_scripts", [False, True])], cli={}, invalid=[], lang_knob=None),
     "method-property": dict(cmd="method-property", sections=["method-property"], files=lambda: {"src/rec.py": "\n".join([
@@ -608,6 +609,11 @@ def matrix_cells():
                 for v_lang, v_base, cli in ((vals[-1], vals[0], None), (vals[0], vals[-1], None)) + (((vals[-1], vals[0], vals[0]), (vals[0], vals[-1], vals[-1])) if key in L["cli"] else ()):
                     cells.append({"kind": "lang", "linter": name, "section": L["sections"][0], "key": key, "lang": lang, "v_lang": v_lang, "v_base": v_base,
                                   "carrier": CARRIERS[(len(cells)) % len(CARRIERS)], "cli_value": cli})
+        for key in L.get("lang_knobs_extra", []):
+            vals = dict(L["knobs"])[key]
+            for lang in ("py", "ts"):
+                cells.append({"kind": "lang", "linter": name, "section": L["sections"][0], "key": key, "lang": lang, "v_lang": vals[-1], "v_base": vals[0],
+                              "carrier": "yaml", "cli_value": None})
         if name in LANGMIX:
             # a per-language section that sets a subset of the thresholds, for every language, both directions
             keys = LANGMIX[name]
